@@ -98,7 +98,12 @@
 (*   up the LAST candidate - taken according to the repository, its marker just deleted - is     *)
 (*   returned as a success (IdGen_show_exhaustion.cfg).  chkAssumed (ghost; what the code does): *)
 (*   when the check function fails (fk = "Check") the id is assumed free and returned, taken or  *)
-(*   not (IdGen_show_checkerr.cfg; such behaviours are not driven, see driver).                  *)
+(*   not (IdGen_show_checkerr.cfg; deliberate in the code: the driver accepts the returned id on *)
+(*   that path, the judge does not ask whether the repository knows it).  What the call leaves   *)
+(*   behind is demanded on EVERY return path: the returned id keeps its marker (HeldMarked), so  *)
+(*   the next generator that draws it is refused (Unique).  ReturnedIdReleased (constant; seeded *)
+(*   change C15-r6m2): the id returned on the check-error path loses its marker on the way out   *)
+(*   (IdGen_show_returnedreleased.cfg).                                                          *)
 (* The pattern of pre-existing ids (`taken`) and the instance layout are chosen in Init, so   *)
 (* one TLC run covers all patterns.  Ghost flags name the deviations:                         *)
 (*   nonAtomic  a fallback Set wrote a marker that another instance had written since Exists  *)
@@ -129,6 +134,7 @@ CONSTANTS Mode,         \* "gen" | "node"
           WithLapse,    \* gen: TRUE = the Lapse action (long time passes once) is enabled
           MaxU,         \* uniq: attempts of the manager's retry loop (MaxAttempts = 100 in the code)
           ExhaustionReturnsLast, \* uniq: TRUE = deviation: the used-up budget returns the last candidate instead of the error
+          ReturnedIdReleased,    \* uniq: TRUE = deviation: the id returned on the check-error path loses its marker on the way out
           Emit
 
 VARIABLES layout, taken, fk, hasnx,            \* chosen in Init (fk: the kind of operation that may fail once, or "none";
@@ -331,8 +337,8 @@ UNX(p) ==
 \* the caller's check function answers for the candidate
 UChk(p) ==
   /\ pc[p] = "uchk"
-  /\ UNCHANGED <<layout, taken, used, mu, nonAtomic, nodev, cand, att, repo, uatt>>
-  /\ \/ /\ UNCHANGED <<fv, chkAssumed>>
+  /\ UNCHANGED <<layout, taken, mu, nonAtomic, nodev, cand, att, repo, uatt>>
+  /\ \/ /\ UNCHANGED <<fv, chkAssumed, used>>
         /\ IF cand[p] \notin repo
            THEN RetOk(p, cand[p]) /\ pc' = [pc EXCEPT ![p] = "idle"] /\ Log(p, "UChk", 0, "free")
            ELSE pc' = [pc EXCEPT ![p] = "urel"] /\ UNCHANGED <<held, calls, dup, tookTaken>> /\ Log(p, "UChk", 0, "exists")
@@ -340,6 +346,9 @@ UChk(p) ==
      \/ /\ CanFail("Check") /\ Spend
         /\ RetOk(p, cand[p]) /\ pc' = [pc EXCEPT ![p] = "idle"]
         /\ chkAssumed' = (chkAssumed \/ cand[p] \in repo)                                 \* deviation
+        \* whatever the return path, the id that is handed out keeps its marker until it is released
+        \* (deviation ReturnedIdReleased, seeded change C15-r6m2: the marker is deleted on the way out)
+        /\ used' = IF ReturnedIdReleased THEN used \ {cand[p]} ELSE used
         /\ Log(p, "UChk", 0, "ferr")
 
 \* the candidate exists: its marker is released (Delete), then the next attempt - or the budget is used up
